@@ -18,6 +18,34 @@ use sha2::{Digest, Sha256};
 use std::collections::HashMap;
 use std::rc::Rc;
 
+/// Verification hooks: a thread-local sink of evaluation events.
+#[cfg(oxlip_verif)]
+pub mod verif {
+    use std::cell::RefCell;
+
+    thread_local! {
+        static EVENTS: RefCell<Option<Vec<String>>> = const { RefCell::new(None) };
+    }
+
+    /// Starts recording events on the current thread.
+    pub fn start() {
+        EVENTS.with(|e| *e.borrow_mut() = Some(Vec::new()));
+    }
+
+    /// Stops recording and returns the recorded events.
+    pub fn take() -> Vec<String> {
+        EVENTS.with(|e| e.borrow_mut().take().unwrap_or_default())
+    }
+
+    pub(super) fn emit(f: impl FnOnce() -> String) {
+        EVENTS.with(|e| {
+            if let Some(v) = e.borrow_mut().as_mut() {
+                v.push(f());
+            }
+        });
+    }
+}
+
 // AnnRef is the type of references to annotations.
 pub type AnnRef = Rc<Annotation>;
 
@@ -108,16 +136,35 @@ impl<'a> Context<'a> {
     /// Adds a new scope to the top of the stack.
     fn push_scope(&mut self, scope: Scope<'a>) {
         self.scope_id_seq += 1;
+        #[cfg(oxlip_verif)]
+        {
+            let mut names: Vec<_> = scope.keys().map(|k| k.as_ref().to_owned()).collect();
+            names.sort();
+            let id = self.scope_id_seq;
+            verif::emit(|| format!("push {} {}", id, names.join(",")));
+        }
         self.scopes.push((self.scope_id_seq, scope));
     }
 
     /// Removes the last scope from the top of the stack.
     fn pop_scope(&mut self) {
+        #[cfg(oxlip_verif)]
+        verif::emit(|| "pop".to_owned());
         self.scopes.pop();
     }
 
     /// Looks for a matching binding in the stack of scopes.
     fn lookup_binding(&self, ident: &atom::Ident) -> Option<(Expr<'a>, AnnRef)> {
+        #[cfg(oxlip_verif)]
+        {
+            let found = self
+                .scopes
+                .iter()
+                .rev()
+                .find(|s| s.1.contains_key(ident))
+                .map(|s| s.0);
+            verif::emit(|| format!("lookup {} {:?}", ident, found));
+        }
         self.scopes
             .iter()
             .rev()
@@ -138,6 +185,13 @@ impl<'a> Context<'a> {
             hash.update(scope_id.to_be_bytes());
         }
         node.digest(&mut hash);
+        #[cfg(oxlip_verif)]
+        {
+            let scope_id = self.scopes.last().map_or(0, |(id, _)| *id);
+            let span = node.span().map(|s| (s.start(), s.end()));
+            let loc = node.tree().locator().to_string();
+            verif::emit(|| format!("ident {} {} {} {:?}", scoped, scope_id, loc, span));
+        }
         atom::Ident::from(format!("hash-{:x}", hash.finalize()))
     }
 }
@@ -449,9 +503,13 @@ pub fn eval_declaration<'a>(
             let expr = if !ctx.refs.contains_key(&ident) {
                 // Insert an empty reference to signal recursion
                 // before evaluating the right-hand side.
+                #[cfg(oxlip_verif)]
+                verif::emit(|| format!("ref-none {}", ident));
                 ctx.refs.insert(ident.clone(), None);
                 let value = eval_any(ctx, decl.rhs(), rhs_ann.clone())?;
                 // Overwrite the reference with the actual value.
+                #[cfg(oxlip_verif)]
+                verif::emit(|| format!("ref-some {}", ident));
                 ctx.refs.insert(ident.clone(), Some(value.clone()));
                 Expr::Reference(ident, value.into())
             } else {
@@ -768,6 +826,8 @@ pub fn eval_recursion<'a>(
     ctx.push_scope(scope);
     let rhs = eval_any(ctx, rec.rhs(), ann)?;
     ctx.pop_scope();
+    #[cfg(oxlip_verif)]
+    verif::emit(|| format!("ref-rec {}", ident));
     ctx.refs.insert(ident.clone(), Some(rhs.clone()));
     let expr = Expr::Reference(ident, rhs.into());
     Ok((expr, AnnRef::default()))
